@@ -63,8 +63,8 @@ def gen_time(rng):
 class C18(CheckBase):
     id = 'C18'
     title = 'Editing a SINEX solution keeps exactly the remaining parameters and covariance'
-    quick_runs = 1900
-    thorough_runs = 60000 + 2 * (3 * 256 + 6 * 32)
+    quick_runs = 2400
+    thorough_runs = 60000 + 2 * (3 * 256 + 6 * 32) + 3 * 6 * 128
     quick_budget_s = 60
     thorough_budget_s = 1200
     run_timeout = 120
@@ -72,13 +72,16 @@ class C18(CheckBase):
                        'creation_time_equals_data_start', 'old_count_digits_occur_elsewhere_in_header',
                        'header_contains_another_V', 'zero_line_width_1', 'zero_line_width_2', 'zero_line_width_3',
                        'chain_depth_ge_2', 'multi_solution_station_removed', 'input_omits_zero_lines',
-                       'site_latitude_minus_zero_degrees']
+                       'site_latitude_minus_zero_degrees', 'input_rewritten_in_place_same_size_same_mtime',
+                       'output_moved_over_its_input']
     components = {
         'real': ['geodepy.gnss: set_creation_time, read_sinex_header_line, read_sinex_comments, the *_block readers, '
                  'read_sinex_estimate / read_sinex_matrix / read_sinex_sites, remove_stns_sinex, remove_velocity_sinex, '
                  'remove_matrixzeros_sinex', 'geodepy.angles.DMSAngle', 'numpy'],
         'simulated': ['wall clock (geodepy.gnss.datetime -> SimClock: set / advance / advance-on-read)',
-                      'file system and cwd (geodepy.gnss.open -> SimFS) with ENOSPC / EIO / crash-inside-write faults'],
+                      'file system and cwd (geodepy.gnss.open, and behind it builtins/io open and the os path functions, -> SimFS: '
+                      'content, size, inode, modification time) with ENOSPC / read-error (EIO, EINTR, ETIMEDOUT, EAGAIN) / crash-inside-write faults',
+                      'caller threads of the concurrent reader batches (baton threads, seeded scheduler, pre-emption at every line of gnss.py)'],
         'stub': ['pandas (import-only stub in /verif/stubs; none of the exercised functions touches it)',
                  'the SINEX producer is a harness component (checks/c18_sinex.py)'],
     }
@@ -89,7 +92,9 @@ class C18(CheckBase):
         'all-zero matrix lines must be removed only when written in the generator\'s own %21.14e format',
     ]
     rule = ('run = generated SINEX input(s) on the simulated disk + history of 3..25 operations (clock set/advance/advance-on-read, '
-            'remove stations / velocities / zero lines, chain output->input, read back, storage faults); non-trivial = at least one edit or '
+            'remove stations / velocities / zero lines, chain output->input (new name or over the input), input re-generated in place, '
+            'read back by one caller or by 2-4 concurrent callers, storage faults), plus three sweeps: removal subsets, special clock '
+            'values, reader races at every 1/48 (thorough 1/256) of a cold first call; non-trivial = at least one edit or '
             'reader call was judged; distinct = set of (operation, layout class, subset class, clock class, fault kind) tuples, hashed')
     simulated_time_note = 'see coverage.simulated_clock: distinct simulated seconds-of-day and days visited, span of simulated dates'
 
@@ -164,6 +169,7 @@ class C18(CheckBase):
     RACE_POINTS_THOROUGH = 256
     N_RACE_SWEEP = 3 * RACE_POINTS_QUICK + 6 * 4          # same-kind pairs densely, mixed pairs sparsely
     N_RANDOM_THOROUGH = 60000
+    N_RACE_THOROUGH = 2 * (3 * RACE_POINTS_THOROUGH + 6 * 32)
 
     def _race_trace(self, rng, j, points, mixed_points):
         K = self.READER_KINDS
@@ -189,7 +195,45 @@ class C18(CheckBase):
         ops += [{'kind': 'read_estimate'}, {'kind': 'read_matrix'}, {'kind': 'read_sites'}]
         return ops
 
+    # storage fault sweep: every editor x every fault kind at each 1/24 (thorough 1/128) of what the call reads / writes
+    FAULT_KINDS = [('eio', 'EIO'), ('eio', 'EINTR'), ('eio', 'ETIMEDOUT'), ('eio', 'EAGAIN'), ('enospc', None), ('crash', None)]
+    FAULT_POINTS_QUICK = 24
+    FAULT_POINTS_THOROUGH = 128
+    N_FAULT_SWEEP = 3 * len(FAULT_KINDS) * FAULT_POINTS_QUICK
+
+    def _fault_trace(self, rng, j, points):
+        editor = ['remove_stns', 'remove_velocity', 'remove_matrixzeros'][j % 3]
+        fk, en = self.FAULT_KINDS[(j // 3) % len(self.FAULT_KINDS)]
+        frac = ((j // (3 * len(self.FAULT_KINDS))) % points + rng.random()) / points
+        spec = sx.gen_spec(rng)
+        while len(spec['stations']) > 3 or (editor == 'remove_velocity' and not spec['velocities']) or \
+                (editor == 'remove_stns' and len(set(s['code'] for s in spec['stations'])) < 2):
+            spec = sx.gen_spec(rng)
+        ops = [{'kind': 'gen', 'spec': spec, 'name': 'fault.snx'}, {'kind': 'clock_set', 't': gen_time(rng)}]
+        e = {'kind': editor, 't2': None}
+        if editor == 'remove_stns':
+            e.update(subset=rng.choice(['one', 'first', 'last']), pick=rng.getrandbits(32))
+        ops.append(e)
+        # afterwards the same edit without a fault, and the readers: nothing of the failed call may linger
+        ops += [dict(e), {'kind': 'read_estimate'}, {'kind': 'read_matrix'}]
+        f = {'kind': fk, 'at_op': 2, 'frac': round(frac, 5)}
+        if en:
+            f['errno'] = en
+        if fk == 'crash':
+            f['keep'] = rng.choice([None, 0, 1, 7])
+        return ops, [f]
+
     def generate(self, rng, i, tier):
+        n_sw0 = self.N_SUBSET_SWEEP + self.N_TIME_SWEEP + self.N_RACE_SWEEP
+        ft = None
+        if n_sw0 <= i < n_sw0 + self.N_FAULT_SWEEP:
+            ft = self._fault_trace(rng, i - n_sw0, self.FAULT_POINTS_QUICK)
+        elif tier == 'thorough' and i >= self.N_RANDOM_THOROUGH + self.N_RACE_THOROUGH:
+            ft = self._fault_trace(rng, i - self.N_RANDOM_THOROUGH - self.N_RACE_THOROUGH, self.FAULT_POINTS_THOROUGH)
+        if ft is not None:
+            for j, o in enumerate(ft[0]):
+                o['id'] = j
+            return {'property': 'C18', 'ops': ft[0], 'faults': ft[1], 'sweep': True}
         n_sw = self.N_SUBSET_SWEEP + self.N_TIME_SWEEP
         if i < n_sw:
             ops = self._sweep_trace(rng, i)
@@ -199,7 +243,7 @@ class C18(CheckBase):
         race = None
         if i < n_sw + self.N_RACE_SWEEP:
             race = self._race_trace(rng, i - n_sw, self.RACE_POINTS_QUICK, 4)
-        elif tier == 'thorough' and i >= self.N_RANDOM_THOROUGH:
+        elif tier == 'thorough' and self.N_RANDOM_THOROUGH <= i < self.N_RANDOM_THOROUGH + self.N_RACE_THOROUGH:
             race = self._race_trace(rng, (i - self.N_RANDOM_THOROUGH) % (3 * self.RACE_POINTS_THOROUGH + 6 * 32),
                                     self.RACE_POINTS_THOROUGH, 32)
         if race is not None:
@@ -461,6 +505,21 @@ class C18(CheckBase):
             nopens0 = len(fs.opens)
             fs.clear_faults()
             fkind = 'none'
+            if any('frac' in f for f in faults):
+                # fault position given as a fraction of what this very call does: measured by a dry run in a
+                # forked child (reads of the input, write calls, bytes written), nothing of it survives here
+                size = self._edit_size(fn, args, fs, st['cur'])
+                faults = [dict(f) for f in faults]
+                for f in faults:
+                    if 'frac' not in f:
+                        continue
+                    if f['kind'] == 'eio':
+                        f['nth_read'] = 1 + int(f['frac'] * max(size[0] - 1, 0))
+                    elif f['kind'] == 'crash':
+                        f['nth_write'] = 1 + int(f['frac'] * max(size[1] - 1, 0))
+                    else:
+                        f['after_bytes'] = int(f['frac'] * size[2])
+                bump('fault_sweep_runs')
             for f in faults:
                 fkind = f['kind']
                 if f['kind'] == 'enospc':
@@ -750,6 +809,43 @@ class C18(CheckBase):
                 continue
             log.add('cread', t, kind, len(got), short_hash(repr(got), 12))
             self._judge_reader(kind, got, model, lambda o, site, d: V(o, 'concurrent/' + site, dict(d, threads=T)), bump)
+
+    def _edit_size(self, fn, args, fs, cur):
+        """(reads of the input, write calls, bytes written to output.snx) of one un-faulted edit call, measured
+        in a forked child"""
+        import os
+        rd, wr = os.pipe()
+        pid = os.fork()
+        if pid == 0:
+            code = 0
+            try:
+                os.close(rd)
+                r0 = fs.read_count.get(fs.abspath(cur), 0)
+                w0 = fs.write_calls
+                try:
+                    fn(*args)
+                except BaseException:
+                    pass
+                out = fs.abspath('output.snx')
+                os.write(wr, b'%d %d %d' % (fs.read_count.get(fs.abspath(cur), 0) - r0, fs.write_calls - w0,
+                                            len(fs.files.get(out, b''))))
+            except BaseException:
+                code = 1
+            os._exit(code)
+        os.close(wr)
+        data = b''
+        while True:
+            chunk = os.read(rd, 64)
+            if not chunk:
+                break
+            data += chunk
+        os.close(rd)
+        os.waitpid(pid, 0)
+        try:
+            a, b, c = data.split()
+            return int(a), int(b), int(c)
+        except ValueError:
+            return 0, 0, 0
 
     def _reader_length(self, job):
         """line events of one reader call made alone - measured in a forked child so that the measuring call
